@@ -124,6 +124,33 @@ def gen(cls, maxlen=8):
     w('    delete ap;')
     w('    vp_reach("h_default:end");')
     w('}')
+    # ---- hostile decode
+    w('#include <stdexcept>')
+    w('#include <Vector/BLF/Exceptions.h>')
+    w('#ifndef VP_DEC_EXTRA')
+    w('#define VP_DEC_EXTRA 8')
+    w('#endif')
+    w('extern "C" void h_dec() {')
+    w('    uint32_t base; { T t0; base = t0.calculateObjectSize(); }')
+    w('    uint32_t cap = base + VP_DEC_EXTRA; if (cap > sizeof buf1) cap = sizeof buf1;')
+    w('#ifdef VP_DEC_ALL')
+    w('    uint32_t n = (uint32_t)vp_concrete(vp_choose(cap + 1, "stream_size"));')
+    w('#else')
+    w('    uint32_t n = cap - (uint32_t)vp_concrete(vp_choose(3, "stream_cut")) * 5;   /* full, -5, -10 */')
+    w('#endif')
+    w('    vp_bytes(buf1, cap, "in");')
+    w('    buf1[0] = \'L\'; buf1[1] = \'O\'; buf1[2] = \'B\'; buf1[3] = \'J\';')
+    w('    MemFile mf(buf1, cap, n);')
+    w('    T t;')
+    w('    int thrown = 0;')
+    w('    try { t.read(mf); }')
+    w('    catch (const Vector::BLF::Exception &) { thrown = 1; }')
+    w('    catch (const std::bad_alloc &) { thrown = 2; }')
+    w('    catch (const std::length_error &) { thrown = 3; }')
+    w('    vp_note("thrown", thrown); vp_note("g", mf.g);')
+    w('    VP_ASSERT(mf.g <= n);')
+    w('    vp_reach("h_dec:end");')
+    w('}')
     return '\n'.join(L) + '\n'
 
 
@@ -163,6 +190,24 @@ def make_rt_judge(cls, padding_types, default_obj=False):
             _viol(ex, st, 'uninit_output', '%s: emitted bytes %s depend on uninitialised memory' % (cls, bad[:12]))
         else:
             ex.obl_concrete += 1
+        # ---- C17: a freshly constructed object has fully determined member values and its class's type code
+        if default_obj:
+            for lf in lv:
+                ca = J.out(st, 'a:' + lf.path)
+                if ca is not None and J.has_garbage(ca):
+                    _viol(ex, st, 'uninit_member', '%s.%s of a default-constructed object is not initialised' % (
+                        cls, lf.path))
+            ct = J.note(st, 'ctor_type')
+            codes = [v for _, v in info['codes']]
+            if type(ct) is E or ct not in codes:
+                _viol(ex, st, 'typecode', '%s: constructor sets objectType %s, format assigns %s' % (cls, ct, codes))
+            else:
+                ex.obl_concrete += 1
+            tb = J.out(st, 'b:objectType')
+            if tb is not None:
+                ok, m = J.can_be(ex, st, X.ne(J.cells_value(tb), ct, 32))
+                if ok:
+                    _viol(ex, st, 'typecode', '%s: type code read back differs from the constructed one' % cls, m)
         # ---- C03 framing
         n1 = len(b1)
         if n1 < 16:
